@@ -237,6 +237,43 @@ func Derive(l *logger.Logger, chain []ChainOp) *logger.Logger {
 	return l
 }
 
+// DeriveDecoy applies a chain like Derive, but after every step it also derives sibling
+// loggers ("decoys") from the same parent: With and WithGroup siblings with short and long
+// payloads. Siblings must not influence what the chain's own logger writes, so the expected
+// output is unchanged; a handler whose children share pre-rendered bytes with their parent
+// shows the decoys' bytes instead.
+func DeriveDecoy(l *logger.Logger, chain []ChainOp) *logger.Logger {
+	for i, op := range chain {
+		parent := l
+		if op.IsGrp {
+			l = parent.WithGroup(string(op.Group))
+		} else {
+			l = parent.With(Args(op.Attrs)...)
+		}
+		// same-length and different-length group names, short and long attributes
+		g := string(op.Group)
+		if g == "" {
+			g = "zq"
+		}
+		parent.WithGroup(flipLast(g))
+		parent.WithGroup("z")
+		parent.With("zq", int64(i))
+		parent.With("zqdecoy", "decoy value that is a little longer")
+		parent.WithGroup("zqdecoygroupname")
+	}
+	return l
+}
+
+func flipLast(s string) string {
+	b := []byte(s)
+	if b[len(b)-1] == 'Z' {
+		b[len(b)-1] = 'Y'
+	} else {
+		b[len(b)-1] = 'Z'
+	}
+	return string(b)
+}
+
 // ---- expectations -----------------------------------------------------------------------
 
 // FFFD maps every invalid UTF-8 byte to U+FFFD (what a JSON string can recover).
